@@ -876,8 +876,15 @@ class Sym(Interp):
             return isinstance(t, tuple) and len(t) == 4 and t[0] == "ext" and t[1] in VALUE_CONVERSIONS and len(t[2]) == 1 and t[2][0] == x and not t[3]
         if ta == tb:
             return ta
-        while isinstance(cond, tuple) and len(cond) == 3 and cond[0] == "unop" and cond[1] == "not":
-            cond, ta, tb = cond[2], tb, ta                  # (a if not c else b) is (b if c else a): one spelling, as for the path conditions
+        while True:
+            if isinstance(cond, tuple) and len(cond) == 3 and cond[0] == "unop" and cond[1] == "not":
+                cond, ta, tb = cond[2], tb, ta                  # (a if not c else b) is (b if c else a): one spelling, as for the path conditions
+            elif isinstance(cond, tuple) and len(cond) == 3 and cond[0] == "bool" and cond[1] in ("and", "or") and cond[2] and \
+                    all(isinstance(x, tuple) and len(x) == 3 and x[0] == "unop" and x[1] == "not" for x in cond[2]):
+                # (not p or not q) is not (p and q): De Morgan, so that the condition is stated positively
+                cond, ta, tb = ("bool", "or" if cond[1] == "and" else "and", tuple(x[2] for x in cond[2])), tb, ta
+            else:
+                break
         if conv_of(ta, tb):
             return tb
         if conv_of(tb, ta):
@@ -889,8 +896,14 @@ class Sym(Interp):
             return o2
         if o2 is None:
             return o1
-        while isinstance(cond, tuple) and len(cond) == 3 and cond[0] == "unop" and cond[1] == "not":
-            cond, o1, o2 = cond[2], o2, o1
+        while True:
+            if isinstance(cond, tuple) and len(cond) == 3 and cond[0] == "unop" and cond[1] == "not":
+                cond, o1, o2 = cond[2], o2, o1
+            elif isinstance(cond, tuple) and len(cond) == 3 and cond[0] == "bool" and cond[1] in ("and", "or") and cond[2] and \
+                    all(isinstance(x, tuple) and len(x) == 3 and x[0] == "unop" and x[1] == "not" for x in cond[2]):
+                cond, o1, o2 = ("bool", "or" if cond[1] == "and" else "and", tuple(x[2] for x in cond[2])), o2, o1
+            else:
+                break
         out = {}
         mu = set(o1.get("$mu", ())) | set(o2.get("$mu", ()))
         for k in set(o1) | set(o2):
